@@ -27,6 +27,8 @@
 //!   need  [outpoint names]    request is applied only where these are forward watches
 //!   probe 0|1                 use as "later correct request" probe
 //!   pq    0|1                 apply the probes after this request when it is refused
+//! Configuration (cfg.json): h0, fh, prewin (remembered headers at the start), below (base-chain
+//! blocks underneath them), deep (ChainTracker::set_allow_deep_reorgs), trusted, nl, hmin, hmax.
 use std::collections::{HashMap, VecDeque};
 use std::sync::{Arc, Condvar, Mutex};
 
@@ -91,6 +93,9 @@ struct Cfg {
     nl: usize,
     hmax: u32,
     hmin: u32,
+    /// number of additional base-chain blocks below the remembered window (known to the honest
+    /// node that supplies the previous headers of a removal, not remembered by the tracker)
+    below: usize,
 }
 
 impl Cfg {
@@ -105,6 +110,7 @@ impl Cfg {
             nl: v["nl"].as_u64().unwrap() as usize,
             hmax: v["hmax"].as_u64().unwrap() as u32,
             hmin: v["hmin"].as_u64().unwrap_or(0) as u32,
+            below: v["below"].as_u64().unwrap_or(0) as usize,
         }
     }
 }
@@ -221,7 +227,8 @@ impl World {
         }
         // base chain A0 .. An  (An = the tracker's initial tip, n = prewin + 1 so that even the
         // oldest remembered header has a known parent)
-        let n = w.cfg.prewin + 1;
+        // `below` more blocks underneath: removals that go below the remembered window (deep reorgs)
+        let n = w.cfg.prewin + 1 + w.cfg.below;
         let mut prev_hash = BlockHash::from_byte_array([0xa0; 32]);
         let mut prev_fh = FilterHeader::from_byte_array([0xa1; 32]);
         for i in 0..=n {
@@ -447,8 +454,20 @@ impl World {
                       "fo": fo_name, "sb": st["saw_block"] == true, "other": other},
             }));
         }
+        // anc: the chain BELOW the remembered headers as the honest node knows it (nearest first):
+        // the ancestors of the oldest remembered header (of the tip when nothing is remembered).
+        // Not tracker state - it is where the "supplied previous headers" of a removal come from.
+        let mut anc = vec![];
+        let oldest = t.headers.back().unwrap_or(&t.tip);
+        let mut cur = self.lookup(&oldest.0.block_hash());
+        while let Some(info) = cur {
+            cur = self.lookup(&info.parent);
+            if let Some(p) = cur.as_ref() {
+                anc.push(self.hdr_json(&Headers(p.block.header, p.fh)));
+            }
+        }
         json!({"h": t.height, "tip": self.hdr_json(&t.tip),
-               "win": t.headers.iter().map(|h| self.hdr_json(h)).collect::<Vec<_>>(), "ls": ls})
+               "win": t.headers.iter().map(|h| self.hdr_json(h)).collect::<Vec<_>>(), "anc": anc, "ls": ls})
     }
 }
 
